@@ -78,7 +78,14 @@ def _strategy(draw):
     length = draw(st.integers(0, 40))
     pfail = draw(st.sampled_from([0.2, 0.5, 0.8]))
     schedule = [1 if draw(st.integers(0, 99)) < pfail * 100 else 0 for _ in range(length)]
-    return {"layer": "system", "mols": mols, "nrewind": draw(st.integers(1, 5)), "schedule": schedule,
+    nrewind = draw(st.integers(1, 5))
+    if draw(st.integers(0, 7)) == 0:
+        # one step that fails as often in a row as the walk tolerates (80 with the default settings), once or
+        # twice, after a few successful steps; mostly with the smallest rewind depth, which keeps the attempt alive
+        pos = draw(st.integers(0, min(6, len(schedule))))
+        schedule = [0] * pos + [1] * draw(st.sampled_from([79, 80, 81, 160])) + schedule[pos:]
+        nrewind = draw(st.sampled_from([1, 1, 1, 2]))
+    return {"layer": "system", "mols": mols, "nrewind": nrewind, "schedule": schedule,
             "maxiter_mol": draw(st.integers(0, 3)), "rng": draw(st.integers(0, 2**31 - 1)),
             "dummies": 5001 if draw(st.integers(0, 19)) == 0 else 0}
 
